@@ -43,6 +43,11 @@ def sampleDense (l : List Rat) (u : Rat) : Nat := (denseGo l u 0).getD (l.length
 /-- prefix sum of the first `k` entries (the breakpoints `c_k` of the inverse CDF) -/
 def cum (l : List Rat) (k : Nat) : Rat := (l.take k).sum
 
+/-- decidable form of the defining clause of the inverse-CDF sampler, evaluated by the driver on the
+    implementation's answer `r` (L3 checker; sound and complete by `intervalSpec_iff_sample`) -/
+def intervalSpec (l : List Rat) (u : Rat) (r : Nat) : Bool :=
+  decide (r < l.length) && decide (cum l r ≤ u) && (decide (l.length ≤ r + 1) || decide (u < cum l (r + 1)))
+
 /-! ## sparse `sampleProbability(d, SparseMatrix2D::ConstRowXpr, generator)`
 
     double p = draw;
